@@ -304,6 +304,9 @@ func oneLine(s string) string {
 func (r *Report) Finish() {
 	r.mu.Lock()
 	defer r.mu.Unlock()
+	if len(r.samples) == 0 {
+		r.samples = append(r.samples, map[string]any{"note": "no individual case was sampled in this run; counters of what was observed instead", "counters": r.counters})
+	}
 	cov := map[string]any{
 		"evaluations":         r.evaluations,
 		"distinct_nontrivial": len(r.distinct),
